@@ -87,6 +87,15 @@ type GunScript struct {
 	WarmUp    bool
 	WarmUpErr bool
 	Report    bool // report a netsample per shot to the bound aggregator
+	// JSONSamples: report a JSON-marshalable sample (for the jsonlines aggregator) instead of a netsample
+	JSONSamples bool
+}
+
+// JSONSample is what the stub gun reports to encoder aggregators.
+type JSONSample struct {
+	Tag string  `json:"tag"`
+	N   int     `json:"n"`
+	F   float64 `json:"f"`
 }
 
 func DefaultGunScript() *GunScript {
@@ -167,9 +176,14 @@ func (g *Gun) Shoot(ammo core.Ammo) {
 		time.Sleep(d)
 	}
 	if g.f.Script.Report && g.aggr != nil {
-		s := netsample.Acquire(fmt.Sprintf("i%d_s%d", g.inst, k))
-		s.SetProtoCode(200)
-		g.aggr.Report(s)
+		tag := fmt.Sprintf("i%d_s%d", g.inst, k)
+		if g.f.Script.JSONSamples {
+			g.aggr.Report(&JSONSample{Tag: tag, N: k})
+		} else {
+			s := netsample.Acquire(tag)
+			s.SetProtoCode(200)
+			g.aggr.Report(s)
+		}
 	}
 	g.f.Log.Add(Ev{Kind: "shoot-out", Inst: g.inst, Ammo: ammo, N: k, Ptr: g})
 	g.inShoot = false
